@@ -176,3 +176,52 @@ Proof. vm_compute. reflexivity. Qed.
 (** views needing exp / cos are not executable at float: the constructor is an error *)
 Example ss_not_executable : frun (DSs 4 DEcho) [1; 2] = None.
 Proof. vm_compute. reflexivity. Qed.
+
+(** * Long generated streams, compared through a hash of every observation
+
+    For streams of thousands of steps the check does not ship the stream and the expected
+    observations as literals: the stream is generated here by a linear congruential walk (the
+    harness-side generator in [vlib/props.py] is the same integer recurrence), and every observation
+    of the model is folded into one integer, which the driver compares with the same fold over the
+    implementation's observations.  The walk moves in quarter units inside [1, 1000] by non-zero
+    steps of at most 99.25, reflected at the borders; all its values are exact binary64 numbers. *)
+Definition lcg (s : Z) : Z := ((s * 6364136223846793005 + 1442695040888963407) mod 2 ^ 64)%Z.
+Definition walk_next (s c : Z) : Z * Z :=
+  let s' := lcg s in
+  let st := (((s' / 2 ^ 33) mod 397 + 1) * (if Z.testbit s' 60 then 1 else -1))%Z in
+  let c' := if ((4 <=? c + st) && (c + st <=? 4000))%Z then (c + st)%Z else (c - st)%Z in
+  (s', c').
+Fixpoint walk_ops (n : nat) (s c : Z) : list (op float) :=
+  match n with
+  | O => []
+  | S n' => let '(s', c') := walk_next s c in OU 0 (f_of_q c' 4) :: walk_ops n' s' c'
+  end.
+
+Definition xo_code (o : xo float) : Z :=
+  match o with
+  | XN => 1 | XE => 2 | XX => 3 | XC => 4
+  | XS v => let '(k, s, m, e) := sme_of_f v in
+            5 + k + 4 * (if s then 1 else 0) + 8 * m + 2 ^ 62 * (e + 1100)
+  end%Z.
+Definition hash_step (h c : Z) : Z := ((h * 1000003 + c) mod (2 ^ 127 - 1))%Z.
+Definition hash_obs (m : list (xo float * nat)) : Z := fold_left (fun h o => hash_step h (xo_code (fst o))) m 7%Z.
+
+(** hash of the model's observations on the walk of [len] steps from [seed] ([E]-convention); -1 when
+    the model's constructor fails *)
+Definition hash_walk_fe (d : desc float) (len seed : Z) : Z :=
+  match sched (guard_finite (denote d)) (walk_ops (Z.to_nat len) seed 2000) with
+  | None => (-1)%Z
+  | Some m => hash_obs m
+  end.
+
+Example walk_ex : map (fun o => match o with OU _ x => sme_of_f x | _ => (9, false, 0, 0)%Z end) (walk_ops 3 1 2000)
+  = map sme_of_f [f_of_q 1857 4; f_of_q 1525 4; f_of_q 1260 4].
+Proof. vm_compute. reflexivity. Qed.
+(** conventions of [sme_of_f] the driver's hash relies on: normal numbers carry a 53-bit mantissa,
+    subnormal ones the exponent -1074 *)
+Example sme_conventions :
+  sme_of_f 1%float = (0, false, 4503599627370496, -52)%Z /\ sme_of_f (f_of_sme true 5 (-1074)) = (0, true, 5, -1074)%Z
+  /\ sme_of_f 0x1p-1022%float = (0, false, 4503599627370496, -1074)%Z /\ sme_of_f (-0)%float = (0, true, 0, 0)%Z.
+Proof. vm_compute. repeat split. Qed.
+Example hash_walk_ex : hash_walk_fe (DSma 3 DEcho) 5 1 = hash_obs [(XN, O); (XN, O); (XS (f_of_q 4642 12), O); (XS (f_of_q 3732 12), O); (XS (f_of_q 2925 12), O)].
+Proof. vm_compute. reflexivity. Qed.
